@@ -1,6 +1,10 @@
 #![allow(dead_code)]
 
 pub use self::archive::RrdpArchive;
+#[cfg(routinator_verif)]
+pub use self::archive::{
+    FallbackTime, RepositoryState, RrdpObjectMeta, SnapshotRrdpArchive,
+};
 pub use self::base::{Collector, LoadResult, ReadRepository, Run};
 pub use self::http::HttpStatus;
 pub use self::update::SnapshotReason;
